@@ -90,3 +90,23 @@ Proof. vm_compute. reflexivity. Qed.
 Check base64_roundtrip :
   forall bs, Forall (fun b => (b < 256)%N) bs -> b64_decode (base64_standard bs) = Some bs.
 Check decimal_formatter_correct : forall n, (n < 2 ^ 64)%N -> digits_value (decimal_formatter n) = n.
+
+(* 6. message order and lossless lines: with rg's JSON configuration (no -m), a search emits nothing
+      when no line is delivered, otherwise begin, then exactly one match/context message per delivered
+      Matched/Context event, in stream order, each carrying that event's bytes (as Data), line number
+      and absolute offset, then end.  (With --passthru every line of the input is delivered — C03 —
+      so the `lines` fields reassemble the input.) *)
+From RG Require Import Spec.ModesSpec Proofs.JsonProofs.
+Theorem json_message_order :
+  forall find_at env cfg, j_max cfg = None ->
+  forall path evs fins,
+    j_always_begin_end cfg = false -> Forall (ev_ok find_at env) evs ->
+    exists s body, json_run find_at cfg env path evs fins = Some (s, true) /\
+      forallb is_body body = true /\
+      map msg_core body = map Some (filter_map ev_core evs) /\
+      js_out s = if existsb prints evs
+                 then JBegin (option_map data_from_bytes path) :: body
+                      ++ [JEnd (option_map data_from_bytes path) (f_bin (fins (1 + length evs))) (js_stats s)]
+                 else [].
+Proof. exact json_message_order_proof. Qed.
+Print Assumptions json_message_order.
